@@ -196,7 +196,7 @@ func (e *Eval) Ref(r *Ref, x Value) Set {
 		return e.Validate(&Schema{Type: r.Name}, x)
 	case "con":
 		return e.Con(r.Con, x)
-	case "inline", "defsym", "defval":
+	case "inline", "defsym", "defval", "letsym", "paramsym":
 		return e.Validate(r.Schema, x)
 	}
 	panic("refschema: cannot evaluate ref kind " + r.Kind)
